@@ -171,39 +171,27 @@ def p7_archetype_tables(prog):
         if not (f.path.startswith('archetypes::Archetypes::<R>::') and f.kind == 'AssocFn'):
             continue
         body = f.body
-        ins = [(b, t) for b, t in body.calls(lambda c: 'RawTable' in c['path'] and c['name'] in ('insert', 'insert_entry', 'insert_no_grow', 'insert_in_slot'))]
-        for b, t in ins:
+        RAW_INS = ('insert', 'insert_entry', 'insert_no_grow', 'insert_in_slot')
+        if any(True for g in [f] + f.closures() for _ in g.body.calls(lambda c: 'RawTable' in c['path'] and c['name'] in RAW_INS)):
             key = 'Archetypes::%s/raw-insert' % f.name
             r.inst(key)
-            fl = [(fb, ft) for fb, ft in body.calls(lambda c: 'HashMap' in c['path'] and c['name'] in ('insert', 'insert_unique_unchecked') and 'IdentifierRef' in json_s(c['args']))]
-            fl = [(fb, ft) for fb, ft in fl if field_of_self(prog, body, ft['args'][0], 'foreign_identifier_lookup')]
-            if not any(body.dominates(fb, b) or body.dominates(b, fb) and body.must_pass(b, [fb], body.return_blocks()) for fb, ft in fl):
-                r.viol('P7', key + '/no-lookup-entry', f.loc(t['ln']), 'archetype inserted into the table without registering its identifier bytes in foreign_identifier_lookup: later lookups by bytes miss it and a second table for the same component set is created')
-            # miss branch of a foreign lookup
-            gets = [(gb, gt) for gb, gt in body.calls(lambda c: c['name'] in ('get', 'get_with_foreign', 'get_mut_with_foreign', 'contains_key', 'get_key_value'))]
-            guarded = False
-            for gb, gt in gets:
-                nm = receiver_name(prog, body, gt['args'][0]) or ''
-                if not (nm.endswith('foreign_identifier_lookup') or gt['f']['name'].endswith('with_foreign')):
-                    continue
-                d = gt['dest']['l']
-                der = derived(body, {d})
-                for sb in range(body.n):
-                    st = body.term(sb)
-                    if st['k'] != 'switch':
-                        continue
-                    dl = op_local(st['discr'])
-                    dd = single_def(body, dl) if dl is not None else None
-                    if dd and dd[0] == 'assign' and dd[3]['rv']['k'] == 'discr' and dd[3]['rv']['place']['l'] in der:
-                        # None edge = value 0
-                        if 0 in st['values']:
-                            none_t = st['targets'][st['values'].index(0)]
-                        else:
-                            none_t = st['otherwise']
-                        if body.edge_dominates((sb, none_t), b):
-                            guarded = True
-            if not guarded:
-                r.viol('P7', key + '/not-on-miss-branch', f.loc(t['ln']), 'archetype inserted without first finding that no table for these identifier bytes exists: entities with one component set could be split over two tables')
+            E = pathsem.analyse(prog, f)
+            fil = adt_field_index(prog, 'archetypes::Archetypes', 'foreign_identifier_lookup')
+            rep = set()
+            if E.truncated:
+                r.viol('P7', key + '/not-analysable', f.loc(), 'path enumeration cut off')
+            for p in E.paths:
+                for e in p.calls(lambda e: 'RawTable' in e['path'] and e['name'] in RAW_INS):
+                    looks = [g for g in p.calls(lambda g: g['i'] < e['i'] and g['name'] in ('get', 'get_with_foreign', 'get_mut_with_foreign', 'contains_key', 'get_key_value', 'get_mut'))
+                             if g['name'].endswith('with_foreign') or pathsem.is_field_of(g['args'][0], 'archetypes::Archetypes', fil)]
+                    miss = [g for g in looks if (p.lookup(g['ret']) is False if g['name'] == 'contains_key' else p.lookup(('discr', g['ret'])) == 0)]
+                    if not miss and 'm' not in rep:
+                        rep.add('m')
+                        r.viol('P7', key + '/not-on-miss-branch', f.loc(e['ln']), 'archetype inserted without first finding that no table for these identifier bytes exists: entities with one component set could be split over two tables')
+                    regs = p.calls(lambda g: 'HashMap' in g['path'] and g['name'] in ('insert', 'insert_unique_unchecked') and pathsem.is_field_of(g['args'][0], 'archetypes::Archetypes', fil))
+                    if not regs and p.ended == 'return' and 'r' not in rep:
+                        rep.add('r')
+                        r.viol('P7', key + '/no-lookup-entry', f.loc(e['ln']), 'archetype inserted into the table without registering its identifier bytes in foreign_identifier_lookup: later lookups by bytes miss it and a second table for the same component set is created')
         # (b) type_id_lookup.insert values
         for b, t in body.calls(lambda c: 'HashMap' in c['path'] and c['name'] == 'insert'):
             if not field_of_self(prog, body, t['args'][0], 'type_id_lookup'):
